@@ -93,12 +93,18 @@ func vkGetWorld(c *vkit.Ctx, rot int) (*vkWorld, error) {
 		w.c = c
 		return w, nil
 	}
-	u := vkUniverse(rot)
+	// rot >= 100: the same universe (rotation rot-100) resolved with QNAME minimisation at the shipped default level
+	// (the plain rotations run with minimisation off): the minimised questions take other branches of the resolver
+	opts := h_resolver.Options{}
+	if rot >= 100 {
+		opts.QnameMinLevel = 5
+	}
+	u := vkUniverse(rot % 100)
 	sim, err := authsim.Start(u)
 	if err != nil {
 		return nil, err
 	}
-	pl, err := h_resolver.New(sim, h_resolver.Options{})
+	pl, err := h_resolver.New(sim, opts)
 	if err != nil {
 		return nil, err
 	}
@@ -728,6 +734,42 @@ func TestVerifC01Tamper(t *testing.T) {
 			}
 		}
 	}
+	// QNAME minimisation on (level 5, the shipped default): every query again, with the kinds that act on negative
+	// responses and on authority sections (what a minimised question meets on its way down)
+	if !capped {
+		var qk []vkKind
+		for _, k := range kinds {
+			if vkQminKinds[k.Name] {
+				qk = append(qk, k)
+			}
+		}
+		w, err := vkGetWorld(c, 100)
+		if err != nil {
+			c.HarnessError(err.Error())
+			return
+		}
+		for _, nm := range vkNames {
+			if nm.Tier > tier {
+				continue
+			}
+			for _, qt := range vkTypes {
+				for _, f := range vkFlagSets() {
+					q := vkQuery{Name: nm.Name, Type: qt, F: f}
+					if !c.Mine(int(vkit.Hash(fmt.Sprintf("%d|%s", 100, q)) % 1000003)) {
+						continue
+					}
+					if c.OverBudget() {
+						capped = true
+						break
+					}
+					w.vkQueryCases(100, q, qk)
+					if c.NumViolations() > 30 {
+						return
+					}
+				}
+			}
+		}
+	}
 	if capped {
 		c.Cap("time budget reached before every query of the alphabet was explored")
 	}
@@ -735,6 +777,11 @@ func TestVerifC01Tamper(t *testing.T) {
 		vkPairs(c)
 	}
 }
+
+// vkQminKinds: the kinds of the minimisation-on pass
+var vkQminKinds = map[string]bool{"inject-authority-oz-neg": true, "inject-authority-ns-neg": true, "strip-negative": true,
+	"forge-bare-nxdomain": true, "forge-bare-nodata": true, "forge-nxdomain": true, "forge-nodata": true, "drop-denial": true,
+	"flip-authority": true, "drop-sigs": true, "foreign-denial": true, "downgrade": true}
 
 var vkCDKinds = map[string]bool{"flip-answer": true, "flip-sig": true, "drop-sigs": true, "downgrade": true, "forge-unsigned": true,
 	"inject-answer-oz": true, "attacker-resign": true, "signer-ancestor-inject": true}
